@@ -9,7 +9,7 @@
 (* disagreement; "not accepted" (the log is not consumed to its end) can   *)
 (* only mean a malformed log or a specification bug.                       *)
 (***************************************************************************)
-EXTENDS Integers, Sequences, TLC, Json, J_Prims, J_Build, J_Tables, J_C07, J_C15, J_Text
+EXTENDS Integers, Sequences, TLC, Json, J_Prims, J_Build, J_Tables, J_C07, J_C15, J_Text, J_C17
 
 CONSTANT TraceFile
 Log == ndJsonDeserialize(TraceFile)
@@ -27,6 +27,7 @@ Judge(e) ==
          [] e.op = "Tables" -> JTables(e)
          [] e.op = "IdentityPair" -> JIdentityPair(e)
          [] e.op \in {"TextEnc", "TextDec", "TextEncChunks", "TextDecMutate", "TextGuard"} -> JText(e)
+         [] e.op = "RAddrAccess" -> JRAddrAccess(e)
          [] e.op = "Extrema" -> JExtrema(e)
          [] e.op = "ExpiryProbe" -> JExpiryProbe(e)
          [] e.op = "Build" -> JBuild(e)
